@@ -1,8 +1,11 @@
 // c07 worker: one thriftgo run (sdk.InvokeThriftgo) in a process whose map
 // iteration starts are chosen by the harness (runtime overlay).
-//   VERIF_MAP   "k1,v1,k2,v2,diag"  iteration k1 (k2) starts at v1 (v2), all others at diag
-//   VERIF_REQ   file receiving the marshalled plugin request (plain) ; VERIF_REQ+".z" the compressed form
-//   VERIF_ITERS file receiving one line per hooked iteration: "<B> <calling function>"
+//
+//	VERIF_MAP   "k1,v1,k2,v2,diag,sitepc,sitev"  iteration k1 (k2) starts at v1 (v2), every iteration
+//	            called from program counter sitepc (hex) at sitev, all others at diag
+//	VERIF_REQ   file receiving the marshalled plugin request (plain) ; VERIF_REQ+".z" the compressed form
+//	VERIF_ITERS file receiving one line per hooked iteration: "<B> <pc> <calling function> <file:line>"
+//
 // The remaining arguments are thriftgo's.
 package main
 
@@ -10,15 +13,17 @@ import (
 	"fmt"
 	"os"
 	"runtime"
+	"sort"
 	"strings"
 	_ "unsafe"
 
+	"github.com/cloudwego/thriftgo/parser"
 	"github.com/cloudwego/thriftgo/plugin"
 	"github.com/cloudwego/thriftgo/sdk"
 )
 
 //go:linkname verifMapSet runtime.verifMapSet
-func verifMapSet(k1, v1, k2, v2, diag int64)
+func verifMapSet(k1, v1, k2, v2, diag int64, sitePC uintptr, siteV int64)
 
 //go:linkname verifMapStop runtime.verifMapStop
 func verifMapStop() int64
@@ -37,6 +42,30 @@ func (r *rec) Invoke(req *plugin.Request) *plugin.Response {
 			return plugin.BuildErrorResponse(err.Error())
 		}
 		os.WriteFile(r.path, b, 0o644)
+		// the same request without the Name2Category maps, and those maps as sorted lines:
+		// lets the check tell "only the order of Name2Category entries differs" from anything else
+		if back, err := plugin.UnmarshalRequest(b); err == nil {
+			var lines []string
+			seen := map[*parser.Thrift]bool{}
+			var walk func(t *parser.Thrift)
+			walk = func(t *parser.Thrift) {
+				if t == nil || seen[t] {
+					return
+				}
+				seen[t] = true
+				for k, v := range t.Name2Category {
+					lines = append(lines, fmt.Sprintf("%s %s=%d", t.Filename, k, v))
+				}
+				t.Name2Category = nil
+				for _, inc := range t.Includes {
+					walk(inc.Reference)
+				}
+			}
+			walk(back.AST)
+			sort.Strings(lines)
+			nb, _ := plugin.MarshalRequest(back)
+			os.WriteFile(r.path+".norm", append(nb, []byte(strings.Join(lines, "\n"))...), 0o644)
+		}
 		z, err := plugin.VerifMarshalCompressed(req)
 		if err != nil {
 			return plugin.BuildErrorResponse(err.Error())
@@ -47,12 +76,13 @@ func (r *rec) Invoke(req *plugin.Request) *plugin.Response {
 }
 
 func main() {
-	var k1, v1, k2, v2, diag int64 = -1, 0, -1, 0, 0
+	var k1, v1, k2, v2, diag, siteV int64 = -1, 0, -1, 0, 0, 0
+	var sitePC uint64
 	if s := os.Getenv("VERIF_MAP"); s != "" {
-		fmt.Sscanf(s, "%d,%d,%d,%d,%d", &k1, &v1, &k2, &v2, &diag)
+		fmt.Sscanf(s, "%d,%d,%d,%d,%d,%x,%d", &k1, &v1, &k2, &v2, &diag, &sitePC, &siteV)
 	}
 	args := append([]string{"thriftgo"}, os.Args[1:]...)
-	verifMapSet(k1, v1, k2, v2, diag)
+	verifMapSet(k1, v1, k2, v2, diag, uintptr(sitePC), siteV)
 	err := sdk.InvokeThriftgo([]plugin.SDKPlugin{&rec{os.Getenv("VERIF_REQ")}}, args...)
 	n := verifMapStop()
 	if p := os.Getenv("VERIF_ITERS"); p != "" {
@@ -67,7 +97,7 @@ func main() {
 				}
 				name = fmt.Sprintf("%s %s:%d", f.Name(), file, line)
 			}
-			fmt.Fprintf(&sb, "%d %s\n", b, name)
+			fmt.Fprintf(&sb, "%d %x %s\n", b, pc, name)
 		}
 		os.WriteFile(p, []byte(sb.String()), 0o644)
 	}
